@@ -38,6 +38,10 @@ def run(prop, tier, seed):
 
 
 def main(argv=None):
+    # fixed hash seed: set/dict iteration order of symbolic atoms is then identical on every run
+    if os.environ.get('PYTHONHASHSEED') != '0' and argv is None:
+        env = dict(os.environ, PYTHONHASHSEED='0')
+        os.execve(sys.executable, [sys.executable, '-m', 'xrsa.check'] + sys.argv[1:], env)
     ap = argparse.ArgumentParser()
     ap.add_argument('prop', nargs='?')
     ap.add_argument('--tier', default=os.environ.get('VERIF_TIER', 'quick'))
